@@ -1,5 +1,7 @@
 (* Channel "prank": PageRank (C18).  The implementation's f64 vectors are converted to
    exact (dyadic) rationals; all comparisons are made in Q with the extracted functions. *)
+module ZZ = Z
+module QQ = Q
 open Model
 open Model.PageRankM
 type string = Stdlib.String.t
@@ -53,6 +55,50 @@ let float_of_q (x : q) : float =
 let qsum (l : q list) : q = List.fold_left (fun a b -> qred (qplus a b)) q0 l
 let qle a b = qle_bool a b
 let fstr (f : float) : string = Printf.sprintf "%.3e" f
+
+(* ---- untrusted fast solver (Zarith): Gauss-Jordan elimination on the rows produced by the
+   extracted [system_rows].  Its result is accepted ONLY through the proved certificate
+   checker [certified] (exactly as the result of the extracted [pr_solve], which it replaces
+   because elimination with inductive binary numbers takes minutes beyond 40 nodes). ---- *)
+let rec zt_of_pos (p : positive) : ZZ.t = match p with
+  | XH -> ZZ.one | XO p -> ZZ.shift_left (zt_of_pos p) 1 | XI p -> ZZ.succ (ZZ.shift_left (zt_of_pos p) 1)
+let zt_of_z (z : z) : ZZ.t = match z with Z0 -> ZZ.zero | Zpos p -> zt_of_pos p | Zneg p -> ZZ.neg (zt_of_pos p)
+let qt_of_q (x : q) : QQ.t = QQ.make (zt_of_z x.qnum) (zt_of_pos x.qden)
+let rec pos_of_zt (z : ZZ.t) : positive =
+  if ZZ.equal z ZZ.one then XH
+  else if ZZ.is_even z then XO (pos_of_zt (ZZ.shift_right z 1)) else XI (pos_of_zt (ZZ.shift_right z 1))
+let q_of_qt (x : QQ.t) : q =
+  let n = QQ.num x and d = QQ.den x in
+  { qnum = (if ZZ.sign n = 0 then Z0 else if ZZ.sign n > 0 then Zpos (pos_of_zt n) else Zneg (pos_of_zt (ZZ.neg n)));
+    qden = pos_of_zt d }
+
+let fast_solve (rows : q list list) : q list option =
+  let a = Array.of_list (List.map (fun r -> Array.of_list (List.map qt_of_q r)) rows) in
+  let n = Array.length a in
+  if n = 0 then Some [] else
+  if Array.exists (fun r -> Array.length r <> n + 1) a then None else begin
+    let ok = ref true in
+    (try
+       for c = 0 to n - 1 do
+         (* pivot *)
+         let p = ref (-1) in
+         for r = c to n - 1 do if !p < 0 && QQ.sign a.(r).(c) <> 0 then p := r done;
+         if !p < 0 then (ok := false; raise Exit);
+         let t = a.(c) in a.(c) <- a.(!p); a.(!p) <- t;
+         let h = a.(c).(c) in
+         for j = c to n do a.(c).(j) <- QQ.div a.(c).(j) h done;
+         for r = 0 to n - 1 do
+           if r <> c && QQ.sign a.(r).(c) <> 0 then begin
+             let f = a.(r).(c) in
+             for j = c to n do a.(r).(j) <- QQ.sub a.(r).(j) (QQ.mul f a.(c).(j)) done
+           end
+         done
+       done
+     with Exit -> ());
+    if !ok then Some (List.init n (fun i -> q_of_qt a.(i).(n))) else None
+  end
+
+let pr_solve gt alpha v md : q list option = fast_solve (system_rows gt alpha v md)
 
 let mode_of_string = function
   | "s" -> StronglyPreferential | "w" -> WeaklyPreferential | "p" -> PseudoRank
